@@ -185,6 +185,54 @@ def _o4_index_mapping(ctx, chk):
                         if aligned:
                             tverdict, tdesc = True, "%s = argsort of %s; sorted list = [%s[i] for i in %s]" % (table, base, base, table)
     if tverdict is None:
+        # (c) a positional table over the sorted decorated list:  dict(enumerate(m for (.., m) in DEC)),
+        #     [m for (.., m) in DEC], {i: m for i, (.., m) in enumerate(DEC)}
+        tv = None
+        for n in ast.walk(g.node):
+            if isinstance(n, ast.Assign) and len(n.targets) == 1 and isinstance(n.targets[0], ast.Name) and n.targets[0].id == table:
+                tv = n.value if tv is None else False
+        positional = None          # (member name, target tuple, iterable)
+        inverted = False
+        if isinstance(tv, ast.Call) and isinstance(tv.func, ast.Name) and tv.func.id == "dict" and len(tv.args) == 1 and not tv.keywords \
+                and isinstance(tv.args[0], ast.Call) and isinstance(tv.args[0].func, ast.Name) and tv.args[0].func.id == "enumerate" \
+                and len(tv.args[0].args) == 1 and not tv.args[0].keywords:
+            tv = tv.args[0].args[0]
+            if isinstance(tv, ast.Name):
+                tv = gflow.def_value(tv)
+        while isinstance(tv, ast.Call) and isinstance(tv.func, ast.Name) and tv.func.id in ("list", "tuple") and len(tv.args) == 1:
+            tv = tv.args[0]
+        if isinstance(tv, (ast.ListComp, ast.GeneratorExp)) and len(tv.generators) == 1 and not tv.generators[0].ifs \
+                and isinstance(tv.generators[0].target, ast.Tuple) and isinstance(tv.elt, ast.Name):
+            positional = (tv.elt.id, tv.generators[0].target, tv.generators[0].iter)
+        elif isinstance(tv, ast.DictComp) and len(tv.generators) == 1 and not tv.generators[0].ifs and isinstance(tv.key, ast.Name) and isinstance(tv.value, ast.Name):
+            gen = tv.generators[0]
+            if isinstance(gen.iter, ast.Call) and isinstance(gen.iter.func, ast.Name) and gen.iter.func.id == "enumerate" and len(gen.iter.args) == 1 \
+                    and not gen.iter.keywords and isinstance(gen.target, ast.Tuple) and len(gen.target.elts) == 2 and isinstance(gen.target.elts[0], ast.Name) \
+                    and isinstance(gen.target.elts[1], ast.Tuple):
+                if tv.key.id == gen.target.elts[0].id:
+                    positional = (tv.value.id, gen.target.elts[1], gen.iter.args[0])
+                elif tv.value.id == gen.target.elts[0].id:
+                    inverted = True
+        if inverted:
+            tverdict, tdesc = False, "%s = %s: the table is inverted (caller's index -> internal id)" % (table, ast.unparse(tv)[:60])
+        elif positional is not None:
+            member, tgt, it = positional
+            # the positions must be those of the list handed to build_head_mapping: the same sorted sequence
+            carried = _carried_index(g, gflow, it, tgt, member)
+            bh = [c for c in ast.walk(g.node) if isinstance(c, ast.Call) and ctx.cg.resolve_callee(g, c.func) == ["fit_offsets.build_head_mapping"]]
+            same_seq = None
+            if len(bh) == 1 and bh[0].args:
+                sv = bh[0].args[0]
+                sv = gflow.def_value(sv) if isinstance(sv, ast.Name) else sv
+                while isinstance(sv, ast.Call) and isinstance(sv.func, ast.Name) and sv.func.id in ("list", "tuple") and len(sv.args) == 1:
+                    sv = sv.args[0]
+                if isinstance(sv, (ast.ListComp, ast.GeneratorExp)) and len(sv.generators) == 1 and not sv.generators[0].ifs:
+                    same_seq = ast.dump(sv.generators[0].iter) == ast.dump(it) and isinstance(it, ast.Name) and gflow.def_value(it) is not None
+            if carried is True and same_seq is True:
+                tverdict, tdesc = True, "%s[position in %s] = index carried from enumerate(%s)" % (table, ast.unparse(it), g.params[0])
+            elif carried is False and same_seq is True:
+                tverdict, tdesc = False, "%s[position] = %s, which is not the caller's index" % (table, member)
+    if tverdict is None:
         chk.indeterminate("C13.O4", where, "construction of the translation table %s not recognised" % table)
         return
     # the output mapping's entries
@@ -493,19 +541,31 @@ def run(ctx, chk, tier="quick"):
         step = zg.params[1]
 
         def bound(n):
-            while isinstance(n, ast.Call) and isinstance(n.func, ast.Name) and n.func.id == "int" and n.args:
-                n = n.args[0]
+            for _h in range(4):
+                if isinstance(n, ast.Call) and isinstance(n.func, ast.Name) and n.func.id == "int" and n.args:
+                    n = n.args[0]
+                elif isinstance(n, ast.Name) and zflow.def_value(n) is not None:
+                    n = zflow.def_value(n)
+                else:
+                    break
             fn = None
             if isinstance(n, ast.Call):
                 fn = (full_call_name(zg.module, n) or "").split(".")[-1]
                 arg = n.args[0] if n.args else None
             elif isinstance(n, ast.BinOp) and isinstance(n.op, ast.FloorDiv):
                 fn, arg = "floor", ast.BinOp(left=n.left, op=ast.Div(), right=n.right)
+            elif isinstance(n, ast.BinOp) and isinstance(n.op, ast.Div):
+                # int(X / step): the quotient itself is truncated towards zero
+                fn, arg = "int", n
             else:
                 return None, None
             which = None
             if isinstance(arg, ast.BinOp) and isinstance(arg.op, ast.Div) and isinstance(arg.right, ast.Name) and arg.right.id == step:
                 num = arg.left
+                if isinstance(num, ast.Call) and len(num.args) == 1 and (full_call_name(zg.module, num) or "").split(".")[-1] in ("floor", "ceil", "round", "trunc", "int", "float"):
+                    # rounding applied to the aggregate before the division: readable, and another function
+                    fn = "%s of %s(.)/step" % (fn, (full_call_name(zg.module, num) or "").split(".")[-1]) if fn != "int" else "%s(.)/step truncated" % (full_call_name(zg.module, num) or "").split(".")[-1]
+                    num = num.args[0]
                 if isinstance(num, ast.Subscript) and isinstance(num.slice, ast.Constant) and isinstance(num.slice.value, int) and num.slice.value < len(agg):
                     which = agg[num.slice.value]
                 elif isinstance(num, ast.Name):
@@ -516,17 +576,24 @@ def run(ctx, chk, tier="quick"):
 
         lo, hi = bound(rng[0].args[0]), bound(rng[0].args[1])
         ok = lo == ("floor", "MIN") and hi == ("ceil", "MAX") or (lo == ("ceil", "MIN") and hi == ("ceil", "MAX") and False)
-        chk.ob("C13.O5", ok, where_of(zg, rng[0]), "level ids = range(%s(%s/step), %s(%s/step))" % (lo[0], lo[1], hi[0], hi[1]),
-               "range(floor(min/step), ceil(max/step)): contains regrid's [ceil(min/step), ceil(max/step)) and covers the observed range from below",
-               key="populate_zeta_grid|range", why="a level that is crossed but missing from the grid violates the foreign key (or is silently dropped)")
+        if None in lo or None in hi:
+            chk.indeterminate("C13.O5", where_of(zg, rng[0]), "bounds of the level-id range (%s) are not rounding(aggregate / step) in a form this rule reads" % ast.unparse(rng[0])[:80])
+        else:
+            chk.ob("C13.O5", ok, where_of(zg, rng[0]), "level ids = range(%s(%s/step), %s(%s/step))" % (lo[0], lo[1], hi[0], hi[1]),
+                   "range(floor(min/step), ceil(max/step)): contains regrid's [ceil(min/step), ceil(max/step)) and covers the observed range from below",
+                   key="populate_zeta_grid|range", why="a level that is crossed but missing from the grid violates the foreign key (or is silently dropped)")
         tabs = {x.table for x in bq.stmt.sources}
         chk.ob("C13.O5", tabs == {"water_level"} and agg == ["MIN", "MAX"], where_of(zg, bq.call), "bounds = %s of %s" % (agg, sorted(tabs)),
                "(min, max) of the gridded water level", key="populate_zeta_grid|bounds")
         ins = [s for s in ctx.sites_in(zg) if s.stmt is not None and s.stmt.kind == "insert" and s.stmt.table == "zeta_grid"]
-        okg = bool(ins) and isinstance(ins[0].params_node, ast.Tuple) and len(ins[0].params_node.elts) == 1 \
-            and isinstance(ins[0].params_node.elts[0], ast.Name) and ins[0].params_node.elts[0].id == step and ins[0].stmt.columns == ["grid_interval_mm"]
-        chk.ob("C13.O5", okg, where_of(zg, ins[0].call if ins else zg.node), "zeta_grid.grid_interval_mm <- %s" % (ast.unparse(ins[0].params_node) if ins else "?"),
-               "the step the ids were computed with", key="populate_zeta_grid|stored-step")
+        sv_ = ins[0].column_values(zflow).get("grid_interval_mm") if ins else None
+        if sv_ is None:
+            chk.indeterminate("C13.O5", where_of(zg, ins[0].call if ins else zg.node), "the value stored in zeta_grid.grid_interval_mm is not a bound parameter")
+        else:
+            svx = zflow.expand(sv_, keep={step})
+            okg = isinstance(svx, ast.Name) and svx.id == step
+            chk.ob("C13.O5", okg, where_of(zg, ins[0].call), "zeta_grid.grid_interval_mm <- %s" % ast.unparse(svx)[:60],
+                   "the step the ids were computed with", key="populate_zeta_grid|stored-step")
 
     # ------------------------------------------------------------ O6 cursor typestate
     n_lazy = 0
